@@ -58,6 +58,12 @@ def programs(tier, seed=0):
              dict(kind="multi", parts=[dl([], ["C1"]), dl(["B_x"], []), dl([], [], "gamma")]),
              dict(kind="multi", parts=[dl(["B_x"], ["C1"], "gaussian"), plain, dl([], ["C1"], "fixed", False), plain]),
              dict(kind="multi", parts=[plain, dl(["A"], ["B_x"]), plain])]
+    # several rules in one model, some with the same target (rules run in declaration order: every one of them matters)
+    def rl(rt, eq, freq):
+        return dict(kind="rule", rtype=rt, eq=eq, freq=freq)
+    multi += [dict(kind="multi", parts=[rl("assignment", "C1 = 2*A", 2.5), rl("assignment", "C1 = A + kq", 5.0), rl("assignment", "B_x = C1 + 1", "repeated")]),
+              dict(kind="multi", parts=[rl("assignment", "kq = A + 1", "repeated"), rl("additive", "C1 = A + B_x", "repeated"), rl("assignment", "kq = 2*kq", "dt"),
+                                        rl("assignment", "C1 = C1 + kq", "dt")])]
     if tier == "quick":
         keep = [p for i, p in enumerate(out) if p["kind"] == "rule" or p.get("delay") or p["ptype"] != "massaction" or i % 2 == 0]
         return keep + multi
